@@ -191,7 +191,19 @@ func (g *lfGen) vec(depth int) string {
 			return fmt.Sprintf("(%s %s %d)", g.vec(depth-1), op, g.rr.Intn(3))
 		}
 		return fmt.Sprintf("(%d %s %s)", g.rr.Intn(3), op, g.vec(depth-1))
-	default: // static comparisons and always-returning operands
+	default: // static comparisons and always-returning operands, and nested aggregations around a join
+		if g.rr.Intn(4) == 0 {
+			// a label removed inside and listed again outside, matched on by a side that lacks it too
+			l1 := hx.Pick(g.rr, lfLabels)
+			l2 := hx.Pick(g.rr, lfLabels)
+			op := hx.Pick(g.rr, []string{"and", "unless", "*", ">"})
+			mod := hx.Pick(g.rr, []string{"", " group_left", " group_right"})
+			if op == "and" || op == "unless" {
+				mod = ""
+			}
+			return fmt.Sprintf("(sum by (%s, %s) (%s without (%s) (%s)) %s on(%s)%s max without (%s) (%s))",
+				l1, l2, hx.Pick(g.rr, []string{"sum", "max"}), l1, g.selector(), op, l1, mod, l1, g.selector())
+		}
 		switch g.rr.Intn(5) {
 		case 0:
 			b := ""
